@@ -2,9 +2,11 @@ import KoordVerif.Common.Proto
 import KoordVerif.Model.C19
 import KoordVerif.Model.C19Dev
 import KoordVerif.Model.C19Rsv
+import KoordVerif.Model.C19QuotaSpec
 /-
 Driver for C19.  A case belongs to one harness; the first token of its first op line selects the
-sub-model (`dev` -> Model/C19Dev, `rsv` -> Model/C19Rsv, everything else -> this file).
+sub-model (`dev` -> Model/C19Dev, `rsv` -> Model/C19Rsv, `quota` -> Model/C19Quota + C19QuotaSpec,
+everything else -> this file).
 
 cpuset harness (pkg/util/cpuset):
   fmt <e>*            NewCPUSet(e…).String() then Parse of that text
@@ -23,7 +25,12 @@ numa harness (pkg/scheduler/plugins/nodenumaresource), one case = one history on
   numa drop <uid>             the stored object disappears (no event)
   numa ev <cache> <kind> <uid>   deliver an informer event for the stored object to cache 0 = live /
         1 = fresh; kind 0 = add, 1 = update (old = new = stored object), 2 = delete
-  numa fresh                  start a fresh cache
+  numa evx <cache> <k> <uid>  deliver an event that carries the UNBOUND version of the stored object (same
+        annotations, spec.nodeName = ""): k 0 = add(unbound version), 1 = update(old = unbound version, new =
+        the stored object) — the first effective delivery seen by a scheduler that did not run Reserve itself
+  numa fresh                  start a fresh cache (its topology options are present)
+  numa ftopo <0|1>            the fresh cache's topologyOptionsManager has no / has the node's CPU topology
+        (0: the NodeResourceTopology has not arrived yet, resourceManager.Update returns early)
   numa dump <cache>           -> ledger block
 -/
 namespace KoordVerif.C19
@@ -34,6 +41,7 @@ structure DState where
   maxRef : Nat := 1
   live   : St := St.init
   fresh  : St := St.init
+  freshTopo : Bool := true
   objs   : List Obj := []
 
 def findObj (uid : Nat) : List Obj → Option Obj
@@ -137,12 +145,30 @@ def stepNuma (d : DState) (args : List String) : DState × List String :=
       | some o =>
         let s := if c = 0 then d.live else d.fresh
         if k > 2 ∨ c > 1 then bad else
-        let s' := if k = 0 then onUpdate d.topo s none o
-                  else if k = 1 then onUpdate d.topo s (some o) o
+        let valid := c = 0 || d.freshTopo
+        let s' := if k = 0 then onUpdateT valid d.topo s none o
+                  else if k = 1 then onUpdateT valid d.topo s (some o) o
                   else onDelete d.topo s o
         (if c = 0 then { d with live := s' } else { d with fresh := s' }, [])
     | _, _, _ => bad
-  | ["fresh"] => ({ d with fresh := St.init }, [])
+  | ["evx", c, k, u] =>
+    match nat? c, nat? k, nat? u with
+    | some c, some k, some uid =>
+      match findObj uid d.objs with
+      | none => bad
+      | some o =>
+        let s := if c = 0 then d.live else d.fresh
+        if k > 1 ∨ c > 1 then bad else
+        let valid := c = 0 || d.freshTopo
+        let s' := if k = 0 then onUpdateT valid d.topo s none o.unbound
+                  else onUpdateT valid d.topo s (some o.unbound) o
+        (if c = 0 then { d with live := s' } else { d with fresh := s' }, [])
+    | _, _, _ => bad
+  | ["fresh"] => ({ d with fresh := St.init, freshTopo := true }, [])
+  | ["ftopo", v] =>
+    match nat? v with
+    | some v => if v > 1 then bad else ({ d with freshTopo := v = 1 }, [])
+    | none => bad
   | ["dump", c] =>
     match nat? c with
     | some 0 => (d, dumpSt d.topo d.maxRef d.live)
@@ -184,6 +210,7 @@ def runCase (lines : List String) : List String :=
     match toks l with
     | "dev" :: _ => KoordVerif.C19.Dev.runCase lines
     | "rsv" :: _ => KoordVerif.C19.Rsv.runCase lines
+    | "quota" :: _ => KoordVerif.C19.Quota.runCase lines
     | _ => runOwn lines
 
 end KoordVerif.C19
